@@ -203,6 +203,19 @@ def run(ctx):
         for _ in range(ctx.pick(250, 6000)):
             cases.append(random_phys_case(rng, rng.choice([1, 2, 3, 4, 4, 5, 6])))
         # identity id different from 0, longer lattice than any chain
+        # negative operator ids as used by the built-in models (-1, -2): chains that differ only in such ids
+        for _ in range(ctx.pick(60, 1000)):
+            L = rng.choice([2, 3, 4])
+            ids = [-2, -1, 0, 1, 2]
+            cs = []
+            for _k in range(rng.randint(2, 4)):
+                n = rng.randint(1, L)
+                cs.append(dict(oids=[rng.choice(ids) for _ in range(n)], qnums=[0] * (n + 1), coeff=rng.choice([-3, -1, 1, 2]), istart=rng.randint(0, L - n)))
+            tw = dict(cs[0])
+            tw['oids'] = [(-1 if o == -2 else -2 if o == -1 else o) for o in tw['oids']]
+            tw['coeff'] = rng.choice([1, 2, -3])
+            cs.append(tw)
+            cases.append(dict(L=L, idoid=0, chains=cs, phys=None))
         for _ in range(ctx.pick(30, 500)):
             cs = [dict(rng.choice(uni2)) for _ in range(rng.randint(1, 3))]
             for c in cs:
